@@ -16,6 +16,9 @@ from gen import gen_device, HistoryGen
 
 # property -> configuration of its correspondence run
 CONFIG = {
+    "C01": dict(wants=["any", "eom", "dmm", "local"], profiles=["mix", "eom", "dmm", "limits"],
+                quick=1000, thorough=20000, wrap_share=0.1,
+                lean_targets=["PulserModel", "Properties.C01"]),
     "C02": dict(wants=["any", "eom", "dmm", "local"], profiles=["mix", "eom", "target", "dmm"],
                 quick=1200, thorough=20000, wrap_share=0.2,
                 lean_targets=["PulserModel", "Properties.C02"]),
